@@ -7,9 +7,11 @@ Design rules (round 3):
   handle", "validates parameter p", "returns validated bytes", "requires parameter p validated" pushed to the call sites),
   private same-module helpers are analysed in place of their call (expansion), so extracting / inlining a helper neither
   changes a verdict nor an obligation id;
-* a must-analysis that fails to establish a fact proves nothing about the code: the verdict is `unknown` (the native event
-  monitor of replay/C11.py decides) unless the failure is a *recognised* bad shape -- no validator call at all can precede the
-  access -- which stays `refuted`;
+* a must-analysis that fails to establish a fact proves nothing about the code, and even a recognised bad shape (no validator
+  call precedes the access; a handler that converts the error) need not be reachable with a bomb: the verdict is `unknown` and
+  the native event monitor of replay/C11.py decides (VIOLATION only with a reproduced input).  The one definite refutation is
+  the breach of the stated constructor policy itself (a read-mode zipfile constructor outside the two sanctioned modules in a
+  function that calls no validate_zipfile);
 * an exception inside this module on changed input is reported as an `unknown` obligation, never as an engine error.
 """
 import ast
@@ -633,14 +635,13 @@ def policy(repo, tier):
 
     # ---- P1: containers are constructed only in the guard module and the archive extractor --------------------------
     def p1():
-        bad, soft, n_sites = [], [], 0
+        bad, soft, n_sites, targets = [], [], 0, []
         zb_fns = set(pkg.mods[ZB].functions) if ZB in pkg.mods else set()
         leaky = {nm for nm in zb_fns if nm not in SANCTIONED and H.returns((ZB, nm)) in ("raw", "mixed")}
         for f, m in pkg.mods.items():
             nodes = list(ast.walk(m.tree))
-            if f not in ALLOWED_ZIPFILE_CTOR and not any(o.split(".")[0] in ("zipfile", "shutil") or pkg.mod_file(o) == ZB or
-                                                         pkg.mod_file(o.rpartition(".")[0]) == ZB for o in pkg.imports[f].values()):
-                continue          # neither zipfile / shutil nor the guard module is imported here
+            if f not in ALLOWED_ZIPFILE_CTOR and not any(w in m.source for w in ("zipfile", "unpack_archive", "zip_bomb")):
+                continue          # the module text mentions neither zipfile / unpack_archive nor the guard module
             ann = set()
             for n in nodes:
                 anns = []
@@ -657,11 +658,15 @@ def policy(repo, tier):
                 if isinstance(n, ast.Call):
                     c = pkg.canonical(f, n.func)
                     if c in ZIP_CTORS or c in UNPACKERS:
+                        mode = n.args[1] if len(n.args) > 1 else next((k.value for k in n.keywords if k.arg == "mode"), None)
+                        if c in ZIP_CTORS and isinstance(mode, ast.Constant) and mode.value in ("w", "x", "a"):
+                            continue          # a container being written, not a document being read
                         n_sites += 1
                         if f not in ALLOWED_ZIPFILE_CTOR:
                             v = _local_validation(pkg, H, f, n) if c in ZIP_CTORS else "bad"
                             if v != "ok":
                                 (bad if v == "bad" else soft).append(f"{f}:{n.lineno} {c}")
+                                targets.extend([f, q] for q, fnode in m.functions.items() if any(x is n for x in own_nodes(fnode)))
                 elif isinstance(n, (ast.Name, ast.Attribute)) and f not in ALLOWED_ZIPFILE_CTOR and id(n) not in callee_ids \
                         and id(n) not in ann and id(n) not in inner and isinstance(getattr(n, "ctx", None), ast.Load):
                     if pkg.canonical(f, n) in ZIP_CTORS and _parent_call_name(m.tree, n) not in ("isinstance", "issubclass"):
@@ -677,10 +682,15 @@ def policy(repo, tier):
                         soft.append(f"{f}:{n.lineno} uses {n.attr}, which returns an unvalidated container")
         detail = "; ".join(bad + soft) or f"{n_sites} sites"
         if bad:
-            return _obl(oid1, False, True, detail, "package")
-        if soft or n_sites < 1:
-            return _unknown(oid1, detail, "package")
-        return _obl(oid1, True, True, detail, "package")
+            # the stated policy itself is breached (a read-mode constructor outside the two modules, no validate_zipfile call in
+            # the constructing function): definite; the replayer additionally drives the constructing function under the monitor
+            o = _obl(oid1, False, True, detail, "package")
+        elif soft or n_sites < 1:
+            o = _unknown(oid1, detail, "package")
+        else:
+            o = _obl(oid1, True, True, detail, "package")
+        o["replay_hint"]["targets"] = targets[:6]
+        return o
     oid1 = "C11/package/policy#zipfile-constructed-only-in-guard-and-archive-modules"
     obls.append(_guard(oid1, "package", p1))
 
@@ -739,7 +749,7 @@ def policy(repo, tier):
                 fns.append(dict(pkg.mods[f].fn_info(q), obligations=1))
         detail = "; ".join(bad + soft) or f"{n_ok} store(s) of a validated handle in {sorted(c[1] for c in roots)}"
         if bad:
-            return _obl(oid2, False, True, detail, "zip_context.py", "typestate")
+            return _unknown(oid2, "recognised bad shape: " + detail, "zip_context.py", "typestate")
         if soft or n_ok < 1:
             return _unknown(oid2, detail, "zip_context.py", "typestate")
         return _obl(oid2, True, True, detail, "zip_context.py", "typestate")
@@ -787,7 +797,7 @@ def policy(repo, tier):
                     soft.append(f"{f}:{r.desc} uses the container before the base initialiser ran")
         detail = "; ".join(bad + soft) or f"{len(subs)} subclasses: {sorted(c[1] for c in subs)}"
         if bad:
-            return _obl(oid3, False, True, detail, "package", "typestate")
+            return _unknown(oid3, "recognised bad shape: " + detail, "package", "typestate")
         if soft or len(subs) < 1:
             return _unknown(oid3, detail, "package", "typestate")
         return _obl(oid3, True, True, detail, "package", "typestate")
@@ -837,7 +847,7 @@ def policy(repo, tier):
                         (soft if vals else bad).append(f"{cf}:{n.lineno} {cq}: `{ast.unparse(n)[:70]}` uses an unvalidated container")
         detail = "; ".join(bad + soft) or f"{n_ok} use(s) of a validated handle (member access / handed to a reader)"
         if bad:
-            return _obl(oid5, False, True, detail, "encryption.py", "typestate")
+            return _unknown(oid5, "recognised bad shape: " + detail, "encryption.py", "typestate")
         if soft or n_ok < 1:
             return _unknown(oid5, detail if (bad or soft) else "no member read through a recognised container handle", "encryption.py", "typestate")
         return _obl(oid5, True, True, detail, "encryption.py", "typestate")
@@ -1165,7 +1175,7 @@ def payload_obligation(pkg, H, fam, oid):
         require(f, q, node, call, arg, 0, pkg.canonical(f, call.func).split(".")[-1])
     detail = "; ".join(bad + soft) or f"{n_live} dominated site(s), {n_dead} site(s) in functions without call sites"
     if bad:
-        return _obl(oid, False, True, detail, "xlsx_extractor.py", "typestate")
+        return _unknown(oid, "recognised bad shape: " + detail, "xlsx_extractor.py", "typestate")
     if soft or n_live < 1:
         return _unknown(oid, detail, "xlsx_extractor.py", "typestate")
     return _obl(oid, True, True, detail, "xlsx_extractor.py", "typestate")
@@ -1410,7 +1420,7 @@ def propagation(repo, tier):
             descr.append((why + " " if why else "") + f"[{name} at line {frames[0][2].lineno}{via}: {st_}]")
         bad_first = sorted(descr, key=lambda d: d.endswith(": ok]"))
         line = lst[0][2][0][2].lineno
-        o = ground_obligation(oid, status == "ok", "; ".join(bad_first)[:900], f"{f}:{line}", kind="exc-ensures", definite=(status == "bad"))
+        o = ground_obligation(oid, status == "ok", "; ".join(bad_first)[:900], f"{f}:{line}", kind="exc-ensures", definite=False)
         o["vcs"] = len(lst)
         o["replay_hint"] = {"family": "propagate", "file": f.split("/")[-1], "function": q.split(".")[0]}
         obls.append(o)
